@@ -477,14 +477,18 @@ func fromStepParam(p *Program, fn *ssa.Function, v ssa.Value, depth int) (bool, 
 				return false, ""
 			}
 			arg := e.Site.Common().Args[idx]
-			ld, ok := arg.(*ssa.UnOp)
-			if !ok {
-				return false, ""
+			if ld, ok := arg.(*ssa.UnOp); ok {
+				if fa, ok := ld.X.(*ssa.FieldAddr); ok && fieldName(fa) == "Step" {
+					continue
+				}
 			}
-			fa, ok := ld.X.(*ssa.FieldAddr)
-			if !ok || fieldName(fa) != "Step" {
-				return false, ""
+			// handed on by a caller whose own parameter is the step
+			if e.Caller != nil && e.Caller.Func != nil && e.Caller.Func != fn {
+				if ok, _ := fromStepParam(p, e.Caller.Func, arg, depth+1); ok {
+					continue
+				}
 			}
+			return false, ""
 		}
 		return true, fmt.Sprintf("parameter %s receives the Step field of a slice node at all %d call sites", x.Name(), len(node.In))
 	case *ssa.BinOp:
